@@ -160,6 +160,17 @@ class H2Run(AsyncRun):
         return en
 
     def _frames_for(self, req):
+        cached = getattr(req, "_frames_cache", None)
+        if cached is not None:
+            return cached
+        frames = self._frames_compute(req)
+        try:
+            req._frames_cache = frames
+        except Exception:
+            pass
+        return frames
+
+    def _frames_compute(self, req):
         body = self.body_for(req)
         frames = []
         pos = 0
